@@ -28,6 +28,7 @@ type ContractCase struct {
 	Format string `json:"format"`
 	Yaml   bool   `json:"yaml"`
 	Color  bool   `json:"color"`
+	Blanks bool   `json:"blanks,omitempty"` // -setkeys written with blanks around the keys
 	Mode   string `json:"mode"` // diff | translate | gitdiff
 	Tr     string `json:"tr,omitempty"`
 	TrIn   string `json:"tr_in,omitempty"`
@@ -53,6 +54,10 @@ func (c ContractCase) flags() []string {
 	for _, x := range f {
 		if strings.HasPrefix(x, "-f=") {
 			continue
+		}
+		if strings.HasPrefix(x, "-setkeys=") && c.Blanks {
+			// the usage text allows blanks around the keys: "-setkeys id, name"
+			x = "-setkeys= " + strings.ReplaceAll(strings.TrimPrefix(x, "-setkeys="), ",", " , ") + " "
 		}
 		out = append(out, x)
 	}
@@ -664,7 +669,10 @@ func genC14(t *rapid.T) ContractCase {
 	c.Opts = gen.Pick(t, "opts", c14OptSets)
 	pc := genPairCase(t, []string{c.Opts}, func(p *gen.Profile) {
 		p.VoidRoot = gen.Chance(t, "voidOK", 15)
+		p.Big = 10
+		p.Payload = gen.Chance(t, "payload", 35)
 	})
+	c.Blanks = gen.Chance(t, "blanks", 50)
 	if _, isPrec := jdx.Precision(c.Opts); isPrec {
 		pc = genEqPair(t, []string{"list"}, true)
 		if _, ok := jdx.Precision(pc.Opts); ok {
@@ -685,7 +693,7 @@ func genC14(t *rapid.T) ContractCase {
 		}
 	}
 	c.Yaml = gen.Chance(t, "yaml", 25)
-	c.Color = c.Mode == "diff" && c.Format != "patch" && !jdx.IsMerge(c.Opts) && gen.Chance(t, "color", 12)
+	c.Color = c.Mode == "diff" && c.Format != "patch" && !jdx.IsMerge(c.Opts) && gen.Chance(t, "color", 12) && !hasLongString(val.MustParse(c.A), 3000)
 	return c
 }
 
